@@ -37,7 +37,9 @@ void map_arena();                       // call once in the zygote, before any f
 void begin_run(const Config& cfg);      // in the child: switch from malloc to the arena
 void end_run();                         // back to malloc (frees of arena blocks still dispatch)
 bool active();
-void step_begin();                      // start of one API call: per-step tick counter := 0
+void step_begin();                      // start of one API call: per-step tick counter := 0, budget := default
+void set_step_budget(uint64_t ticks);   // budget of the current step only (0 = default)
+void reset_step_ticks();
 uint64_t step_ticks();
 const Stats& stats();
 uint64_t fingerprint();
